@@ -50,10 +50,16 @@ def run(tier, seed, replay):
                            props=False, edges=True)
     graph2 = udprelay.urgent_filter(vlib.Graph(g2), drop=("StopBegin",))
     paths2, left2 = graph2.cover(seed=seed, max_len=40, max_paths=(3000 if big else 300), prefer=lambda e: e[1]["n"] in ("Garbage", "PackChk"))
+    # a name whose lookup fails, between lookups that succeed: the failed lookup must not leave the cache pointing elsewhere
+    g5, _ = udprelay.model(dict(Sess='{"s1"}', Targets='{"a","nx"}', Domains='{"a","nx"}', Unresolvable='{"nx"}', Rejected="{}", MaxSend=3, ChanCap=3,
+                                MaxReply=0, MaxTimer=0), props=False, edges=True)
+    graph5 = udprelay.urgent_filter(vlib.Graph(g5), drop=("StopBegin",))
+    paths5, left5 = graph5.cover(seed=seed, max_len=40, max_paths=None if big else 200)
     v.coverage["replay_graphs"] = [{"targets": "a,b", "distinct": g.distinct, "edges": len(graph.edges), "paths": len(paths), "uncovered_edges": left},
                                    {"targets": "a,ip + garbage", "distinct": g2.distinct, "edges": len(graph2.edges), "paths": len(paths2), "uncovered_edges": left2}]
     n1, s1, d1 = udprelay.replay(v, binary, behs, variants, seed, "isolation replay")
-    n2, s2, d2 = udprelay.replay(v, binary, [graph2.behaviour(p) for p in paths2], variants[:1], seed, "isolation replay (cache hits, garbage)")
+    n2, s2, d2 = udprelay.replay(v, binary, [graph2.behaviour(p) for p in paths2] + [graph5.behaviour(p) for p in paths5], variants[:1], seed,
+                                 "isolation replay (cache hits, garbage, failed lookups)")
     # (3) session-id keyed relay (Shadowsocks 2022 server): the client moves to another address mid-session, forged/replayed
     #     datagrams with the session's id arrive from a foreign address; replies must follow the latest authenticated address
     g3, _ = udprelay.model(dict(Sess='{"s1"}', Targets='{"ip"}', Domains="{}", Rejected="{}", MaxSend=2, ChanCap=2, MaxReply=2, MaxTimer=0, Keyed='"sid"'),
